@@ -46,6 +46,13 @@ def parseAct : String → Option Act
   | "peek" => some Act.peek
   | "coro" => some (Act.await WK.coro)
   | "sync" => some (Act.await WK.sync)
+  -- other spellings of the blocking observer / the poll: same atomic operations, same model step
+  | "fwait" => some (Act.await WK.sync)
+  | "ssync" => some (Act.await WK.sync)
+  | "fsync" => some (Act.await WK.sync)
+  | "join" => some (Act.await WK.sync)
+  | "conv" => some (Act.await WK.sync)
+  | "cpeek" => some Act.peek
   | "cb" => some (Act.await WK.cb)
   | _ => none
 
